@@ -20,7 +20,7 @@ import numpy as np
 import qiskit
 from qiskit.circuit import Gate
 from qiskit import QuantumCircuit, QuantumRegister
-from .util import check_u2, apply_ctrl_state
+from .util import check_u2, apply_ctrl_state, orthonormal_eig
 
 
 # pylint: disable=maybe-no-member
@@ -116,7 +116,7 @@ class Ldmcu(Gate):
     def _gate_u(agate, coef, signal):
         param = 1 / np.abs(coef)
 
-        values, vectors = np.linalg.eig(agate)
+        values, vectors = orthonormal_eig(agate)
         gate = np.power(values[0] + 0j, param) * vectors[:, [0]] @ vectors[:, [0]].conj().T
         gate = (
                 gate
